@@ -342,7 +342,7 @@ def coeff(t, args):
         exec(code, self.str_env, lc)
         self.base = base
         self.func = lc["coeff"]
-        self.args = args
+        self.args = args.copy()
 
     cdef complex _call(self, double t) except *:
         return self.func(t, self.args)
